@@ -567,10 +567,11 @@ def coq_crosscheck(ctx, marshal_samples, decode_samples):
         body = p[13].split(":")
         typ = {"1": "MCall", "2": "MReply", "3": "MError", "4": "MSignal"}.get(p[3], "MInvalid")
         m = ("{| m_typ := %s; m_flags := %s; m_be := %s; m_reply_serial := %s; m_interface := %s; m_destination := %s; "
-             "m_sender := %s; m_member := %s; m_object := %s; m_error_name := %s; m_body := %s; m_sig := %s; m_nfds := %s |}" % (
+             "m_sender := %s; m_member := %s; m_object := %s; m_error_name := %s; m_body := %s; m_sig := %s; m_nfds := %s; m_live := %s |}" % (
                  typ, p[4], "true" if p[2] == "B" else "false", coq_opt_num(p[6]), coq_opt_str(p[7]), coq_opt_str(p[8]),
                  coq_opt_str(p[9]), coq_opt_str(p[10]), coq_opt_str(p[11]), coq_opt_str(p[12]),
-                 coq_list(b"" if body[1] == "-" else bytes.fromhex(body[1])), coq_list(b"" if body[2] == "-" else bytes.fromhex(body[2])), body[3]))
+                 coq_list(b"" if body[1] == "-" else bytes.fromhex(body[1])), coq_list(b"" if body[2] == "-" else bytes.fromhex(body[2])), body[3],
+                 (p[14][2:] if len(p) > 14 and p[14].startswith("L:") else body[3])))
         f = fields_of(res)
         want = "Err" if f["H"] == "err" else "Ok %s" % coq_list(bytes.fromhex(f["H"]))
         out.append("Example m%d : marshal_msg %s %s = %s. Proof. vm_compute. reflexivity. Qed." % (n, m, p[5], want))
